@@ -6,7 +6,7 @@ DOC = {
     'not_decided': ['that the set of persisted-write subsets always yields exactly one commit point (needs crash enumeration)'],
 }
 
-WITNESSES = ['C01W1Fail', 'C01W1Twin', 'C01W2Fail', 'C01W2Twin']
+WITNESSES = ['C01W1Fail', 'C01W1Twin', 'C01W2Fail', 'C01W2Twin', 'C01W3Fail', 'C01W3Twin']
 
 
 def rules(ctx):
@@ -23,6 +23,7 @@ def rules(ctx):
     S.c12_tree_rules(ctx)
     S.c12_db_rules(ctx)
     S.walker_rules(ctx)
+    S.full_range_rules(ctx)
     S.c11_rules(ctx)
     S.c06_r3_durable_drains(ctx)
     S.c06_r4_rebuild(ctx)
